@@ -229,3 +229,97 @@ func ruleTMPLFIELDUSE(c *Ctx) {
 		c.addT(rule, "count:", "", CountDropped, "only %d uses of guarded struct fields found in the Go templates", n)
 	}
 }
+
+// TMPL(field-maintain): the converse of TMPL(field-use) for the position bookkeeping of the
+// generated lexer. A field that is declared must also be kept up to date: for every truth
+// assignment under which `line` / `lineOffset` is declared, the statement that advances it at a
+// newline in the scan loop and the one that recomputes it in rewind() are emitted too
+// (declaration => maintenance). Otherwise tokenColumn = true with tokenLine = false declares
+// lineOffset, never updates it, and every column after the first line is wrong.
+func ruleTMPLFIELDMAINT(c *Ctx) {
+	const rule = "TMPL(field-maintain)"
+	tf, err := c.templates()
+	if err != nil {
+		c.Lost(rule, "gen/templates", "%v", err)
+		return
+	}
+	f := tf["go_lexer.go.tmpl"]
+	if f == nil || f.Trees["lexerType"] == nil {
+		c.Lost(rule, "go_lexer.go.tmpl", "template or lexerType not found")
+		return
+	}
+	emit := tmplEmitter(f)
+	type maint struct{ what, text string }
+	fields := map[string][]maint{
+		"lineOffset": {{"newline update", "l.lineOffset = l.scanOffset"}, {"rewind", "l.lineOffset = 1 +"}},
+		"line":       {{"newline update", "l.line++"}, {"rewind", "l.line -="}},
+	}
+	var names []string
+	for k := range fields {
+		names = append(names, k)
+	}
+	sort.Strings(names)
+	for _, name := range names {
+		// declaration formula
+		var decl *bform
+		declRe := regexp.MustCompile(`(?m)^\t?` + name + `[ \t]+int`)
+		walkTmpl(f.Trees["lexerType"].Root, nil, func(nd parse.Node, gs []tguard) {
+			if tn, ok := nd.(*parse.TextNode); ok && declRe.MatchString(string(tn.Text)) {
+				fm := emit("lexerType", gs, 0)
+				decl = &fm
+			}
+		})
+		if decl == nil {
+			c.Lost(rule, "go_lexer.go.tmpl:"+name, "declaration not found")
+			continue
+		}
+		for _, m := range fields[name] {
+			key := fmt.Sprintf("go_lexer.go.tmpl:%s:%s", name, m.what)
+			var alts []bform
+			pos := ""
+			for _, dn := range sortedTreeKeys(f.Trees) {
+				walkTmpl(f.Trees[dn].Root, nil, func(nd parse.Node, gs []tguard) {
+					if tn, ok := nd.(*parse.TextNode); ok && strings.Contains(string(tn.Text), m.text) {
+						alts = append(alts, emit(dn, gs, 0))
+						pos = tmplPos(f, nd)
+					}
+				})
+			}
+			if len(alts) == 0 {
+				c.addT(rule, key, "", AnchorLost, "no statement `%s…` found in go_lexer.go.tmpl", m.text)
+				continue
+			}
+			any := bform{op: "or", args: alts}
+			atoms := map[string]bool{}
+			decl.atoms(atoms)
+			any.atoms(atoms)
+			var as []string
+			for a := range atoms {
+				as = append(as, a)
+			}
+			sort.Strings(as)
+			bad := ""
+			for mask := 0; mask < 1<<len(as) && len(as) <= 14; mask++ {
+				env := map[string]bool{}
+				for i, a := range as {
+					env[a] = mask&(1<<i) != 0
+				}
+				if decl.eval(env) && !any.eval(env) {
+					var on []string
+					for _, a := range as {
+						if env[a] {
+							on = append(on, a)
+						}
+					}
+					bad = "{" + strings.Join(on, " && ") + "}"
+					break
+				}
+			}
+			if bad == "" {
+				c.addT(rule, key, pos, OK, "whenever %s is declared its %s is generated (%d atomic conditions enumerated)", name, m.what, len(as))
+			} else {
+				c.addT(rule, key, pos, Violation, "%s is declared under %s (all other conditions false) but its %s (`%s…`) is not generated then: the field keeps its initial value and positions derived from it are wrong", name, bad, m.what, m.text)
+			}
+		}
+	}
+}
